@@ -10,6 +10,17 @@ import (
 var shortKeys = [][]byte{
 	[]byte("a"), []byte("b"), []byte("c"), []byte("aa"), []byte("ab"), []byte("ba"),
 	[]byte("abc"), []byte("b\x00"), {0x80, 0x01}, {0xff}, {0x00}, {0x7f, 0x80},
+	// keys that continue a shorter key (a prefix) with 0xff bytes: the top of a prefix range
+	{'a', 0xff}, {'a', 0xff, 'z'}, {'a', 0xff, 0xff, 0x01}, {'a', 'b', 0xff, 0x00},
+}
+
+func init() {
+	// two pairs of distinct 64-byte keys with identical xxhash64 (same bucket everywhere the engine hashes keys)
+	for _, tag := range []byte{1, 2} {
+		if a, b := CollidingKeys(tag); a != nil {
+			shortKeys = append(shortKeys, a, b)
+		}
+	}
 }
 
 // KeyPool is the per-case key universe.
@@ -43,7 +54,7 @@ func (p *KeyPool) Draw(t *rapid.T, label string) []byte {
 	if x < 85 {
 		return p.Keys[x%8]
 	}
-	return p.Keys[8+(x-85)%(len(p.Keys)-8)]
+	return p.Keys[8+U(t, len(p.Keys)-8, label+"tail")]
 }
 
 // GenProfile tunes the history generator.
@@ -132,7 +143,7 @@ func pickWeighted(t *rapid.T, w map[string]int, order []string) string {
 	return order[0]
 }
 
-var kindOrder = []string{"put", "del", "get", "batch", "sync", "merge", "reopen", "listkeys", "fold", "stat", "emptykey", "iter", "backup", "bigput"}
+var kindOrder = []string{"put", "del", "get", "batch", "sync", "merge", "reopen", "listkeys", "fold", "stat", "emptykey", "iter", "backup", "bigput", "tear"}
 
 // GenOp draws the next concrete op of a history from the runner's state.
 func GenOp(t *rapid.T, r *Runner, pool *KeyPool, p *GenProfile) Op {
@@ -158,6 +169,9 @@ func GenOp(t *rapid.T, r *Runner, pool *KeyPool, p *GenProfile) Op {
 		return Op{K: "fold", N: U(t, 4, "stop")}
 	case "emptykey":
 		return Op{K: "emptykey", Which: Pick(t, []string{"put", "put0", "get", "del"}, "which")}
+	case "tear":
+		// restart over an interrupted append: Close, an incomplete record is left at the end of the newest file, Open
+		return Op{K: "tear", N: 8 + U(t, 400, "tearlen"), VSeed: r.NextSeed()}
 	case "backup":
 		o := GenOpt(t, "backupreader", p.OptProfile)
 		return Op{K: "backup", Opt: &o}
